@@ -247,7 +247,7 @@ namespace Givaro {
     Montgomery<int32_t>::init (Element& r, const int64_t a) const
     {
 
-        r = static_cast<Element>(std::abs(a) % int64_t(_p));
+        r = static_cast<Element>(std::abs(a % int64_t(_p)));
         if (a < 0) negin(r);
         return redc(r, r * _B2p);
     }
